@@ -8,6 +8,6 @@ CONSTANTS
   ResetChoices <- Repaired
   Concurrent = TRUE
   RecordHist = FALSE
-INVARIANTS Agreement ResponderSound InitiatorSound MutualChoice FaultNeverSuccess PoolClean
+INVARIANTS Agreement ResponderSound InitiatorSound MutualChoice FaultNeverSuccess CorruptionEndsBoth PoolClean
 VIEW view
 CHECK_DEADLOCK FALSE
